@@ -5,68 +5,72 @@
    match arm, IN THE RUST ORDER), the quirks tables of data.rs, the SVG / MathML
    / foreign adjustment maps of mod.rs.
 
-   Hand-copied from the pinned source; TO BE REPLACED BY Gen (the regenerated
-   coq/Gen/GenTagSets.v, GenDispatch.v, GenQuirks.v, GenAdjust.v): until then
-   coq/Tree/TreeGenBridge.v (when present) checks these lists against the
-   regenerated ones by computation.
+   Every table is DEFINITIONALLY the regenerated one: coq/Gen/GenTagSets.v,
+   GenDispatch.v, GenQuirks.v, GenAdjust.v (written by gen/gen_treetables.py
+   from the Rust source on every run) converted from Coq strings to code-point
+   lists.  coq/Inst/InstTreeTables.v relates the same Gen tables to the lists of
+   the WHATWG standard.
    No proofs in this file.
    ======================================================================== *)
 From Coq Require Import List NArith Bool Arith String.
+From HV Require TreeTables.Types Gen.GenTagSets Gen.GenDispatch Gen.GenQuirks Gen.GenAdjust.
 From HV Require Import Dom.DomSpec Tree.TreeTypes.
 Import ListNotations.
 Open Scope string_scope.
 Open Scope list_scope.
 Notation length := List.length (only parsing).
 
-(* ---------- tag sets (all in the HTML namespace unless said otherwise) ---------- *)
-Definition foster_target : list ename := Eval vm_compute in html_names ["table"; "tbody"; "tfoot"; "thead"; "tr"].
-Definition html_default_scope : list ename := Eval vm_compute in
-  html_names ["applet"; "caption"; "html"; "table"; "td"; "th"; "marquee"; "object"; "select"; "template"].
-Definition mathml_text_integration_point : list ename := Eval vm_compute in
-  map (fun s => (ns_mathml, nm s)) ["mi"; "mo"; "mn"; "ms"; "mtext"].
-Definition svg_html_integration_point : list ename := Eval vm_compute in
-  map (fun s => (ns_svg, nm s)) ["foreignObject"; "desc"; "title"].
-Definition default_scope : list ename := Eval vm_compute in
-  html_default_scope ++ mathml_text_integration_point ++ svg_html_integration_point.
-Definition list_item_scope : list ename := Eval vm_compute in default_scope ++ html_names ["ol"; "ul"].
-Definition button_scope : list ename := Eval vm_compute in default_scope ++ html_names ["button"].
-Definition table_scope : list ename := Eval vm_compute in html_names ["html"; "table"; "template"].
-Definition table_body_context : list ename := Eval vm_compute in html_names ["tbody"; "tfoot"; "thead"; "template"; "html"].
-Definition table_row_context : list ename := Eval vm_compute in html_names ["tr"; "template"; "html"].
-Definition td_th : list ename := Eval vm_compute in html_names ["td"; "th"].
-Definition cursory_implied_end : list ename := Eval vm_compute in
-  html_names ["dd"; "dt"; "li"; "option"; "optgroup"; "p"; "rb"; "rp"; "rt"; "rtc"].
-Definition thorough_implied_end : list ename := Eval vm_compute in
-  cursory_implied_end ++ html_names ["caption"; "colgroup"; "tbody"; "td"; "tfoot"; "th"; "thead"; "tr"].
-Definition heading_tag : list ename := Eval vm_compute in html_names ["h1"; "h2"; "h3"; "h4"; "h5"; "h6"].
-Definition special_tag : list ename := Eval vm_compute in html_names
-  ["address"; "applet"; "area"; "article"; "aside"; "base"; "basefont"; "bgsound"; "blockquote"; "body";
-   "br"; "button"; "caption"; "center"; "col"; "colgroup"; "dd"; "details"; "dir"; "div"; "dl"; "dt"; "embed";
-   "fieldset"; "figcaption"; "figure"; "footer"; "form"; "frame"; "frameset"; "h1"; "h2"; "h3"; "h4"; "h5";
-   "h6"; "head"; "header"; "hgroup"; "hr"; "html"; "iframe"; "img"; "input"; "isindex"; "li"; "link";
-   "listing"; "main"; "marquee"; "menu"; "meta"; "nav"; "noembed"; "noframes"; "noscript";
-   "object"; "ol"; "p"; "param"; "plaintext"; "pre"; "script"; "section"; "select"; "source"; "style";
-   "summary"; "table"; "tbody"; "td"; "template"; "textarea"; "tfoot"; "th"; "thead"; "title"; "tr"; "track";
-   "ul"; "wbr"; "xmp"].
+(* ---------- conversion from the vocabulary of TreeTables/Types.v ---------- *)
+Definition conv_ns (n : HV.TreeTables.Types.ns) : str :=
+  match n with
+  | HV.TreeTables.Types.NsNone => ns_none
+  | HV.TreeTables.Types.NsHtml => ns_html
+  | HV.TreeTables.Types.NsMathml => ns_mathml
+  | HV.TreeTables.Types.NsSvg => ns_svg
+  | HV.TreeTables.Types.NsXlink => ns_xlink
+  | HV.TreeTables.Types.NsXml => ns_xml
+  | HV.TreeTables.Types.NsXmlns => ns_xmlns
+  end.
+Definition conv_en (e : HV.TreeTables.Types.ename) : ename := (conv_ns (fst e), nm (snd e)).
+Definition conv_set (l : list HV.TreeTables.Types.ename) : list ename := map conv_en l.
+Definition conv_qn (q : HV.TreeTables.Types.qname) : qualname :=
+  {| q_prefix := option_map nm (fst (fst q)) ; q_ns := conv_ns (snd (fst q)) ; q_local := nm (snd q) |}.
+
+(* ---------- tag sets ---------- *)
+Definition foster_target : list ename := Eval vm_compute in conv_set GenTagSets.ts_appropriate_place_for_insertion__foster_target.
+Definition html_default_scope : list ename := Eval vm_compute in conv_set GenTagSets.ts_html_default_scope.
+Definition mathml_text_integration_point : list ename := Eval vm_compute in conv_set GenTagSets.ts_mathml_text_integration_point.
+Definition svg_html_integration_point : list ename := Eval vm_compute in conv_set GenTagSets.ts_svg_html_integration_point.
+Definition default_scope : list ename := Eval vm_compute in conv_set GenTagSets.ts_default_scope.
+Definition list_item_scope : list ename := Eval vm_compute in conv_set GenTagSets.ts_list_item_scope.
+Definition button_scope : list ename := Eval vm_compute in conv_set GenTagSets.ts_button_scope.
+Definition table_scope : list ename := Eval vm_compute in conv_set GenTagSets.ts_table_scope.
+Definition table_body_context : list ename := Eval vm_compute in conv_set GenTagSets.ts_table_body_context.
+Definition table_row_context : list ename := Eval vm_compute in conv_set GenTagSets.ts_table_row_context.
+Definition td_th : list ename := Eval vm_compute in conv_set GenTagSets.ts_td_th.
+Definition cursory_implied_end : list ename := Eval vm_compute in conv_set GenTagSets.ts_cursory_implied_end.
+Definition thorough_implied_end : list ename := Eval vm_compute in conv_set GenTagSets.ts_thorough_implied_end.
+Definition heading_tag : list ename := Eval vm_compute in conv_set GenTagSets.ts_heading_tag.
+Definition special_tag : list ename := Eval vm_compute in conv_set GenTagSets.ts_special_tag.
 (* mod.rs check_body_end *)
-Definition body_end_ok : list ename := Eval vm_compute in html_names
-  ["dd"; "dt"; "li"; "optgroup"; "option"; "p"; "rp"; "rt"; "tbody"; "td"; "tfoot"; "th"; "thead"; "tr"; "body"; "html"].
+Definition body_end_ok : list ename := Eval vm_compute in conv_set GenTagSets.ts_check_body_end__body_end_ok.
 (* mod.rs insert_element *)
-Definition form_associatable : list ename := Eval vm_compute in html_names
-  ["button"; "fieldset"; "input"; "object"; "output"; "select"; "textarea"; "img"].
-Definition listed : list ename := Eval vm_compute in html_names
-  ["button"; "fieldset"; "input"; "object"; "output"; "select"; "textarea"].
+Definition form_associatable : list ename := Eval vm_compute in conv_set GenTagSets.ts_insert_element__form_associatable.
+Definition listed : list ename := Eval vm_compute in conv_set GenTagSets.ts_insert_element__listed.
 (* rules.rs <li> | <dd> | <dt> *)
-Definition close_list : list ename := Eval vm_compute in html_names ["li"].
-Definition close_defn : list ename := Eval vm_compute in html_names ["dd"; "dt"].
-Definition extra_special_minus : list ename := Eval vm_compute in html_names ["address"; "div"; "p"].
-Definition extra_special (n : ename) : bool := in_set special_tag n && negb (in_set extra_special_minus n).
+Definition close_list : list ename := Eval vm_compute in conv_set GenTagSets.ts_step_InBody__close_list.
+Definition close_defn : list ename := Eval vm_compute in conv_set GenTagSets.ts_step_InBody__close_defn.
+(* extra_special = [special_tag] - "address" "div" "p": the subtracted names *)
+Definition extra_special_list : list ename := Eval vm_compute in conv_set GenTagSets.ts_step_InBody__extra_special.
+Definition extra_special_minus : list ename := Eval vm_compute in
+  filter (fun n => negb (in_set extra_special_list n)) special_tag.
 (* mod.rs process_chars_in_table *)
-Definition table_outer_chars : list ename := Eval vm_compute in html_names ["table"; "tbody"; "tfoot"; "thead"; "tr"].
+Definition table_outer_chars : list ename := Eval vm_compute in conv_set GenTagSets.ts_process_chars_in_table__table_outer.
 (* rules.rs InTableBody *)
-Definition table_outer_body : list ename := Eval vm_compute in html_names ["table"; "tbody"; "tfoot"].
+Definition table_outer_body : list ename := Eval vm_compute in conv_set GenTagSets.ts_step_InTableBody__table_outer.
 (* mod.rs close_p_element: [cursory_implied_end] - "p" *)
-Definition implied_minus_p (n : ename) : bool := in_set cursory_implied_end n && negb (ename_eqb n (ns_html, nm "p")).
+Definition implied_minus_p_list : list ename := Eval vm_compute in conv_set GenTagSets.ts_close_p_element__implied.
+Definition implied_minus_p (n : ename) : bool := in_set implied_minus_p_list n.
 
 (* ---------- dispatch heads ---------- *)
 Inductive atom :=
@@ -74,7 +78,8 @@ Inductive atom :=
 | ANull | AComment | AEof
 | AStart (n : str) | AEnd (n : str)
 | AAnyStart | AAnyEnd
-| AWild.                          (* `token =>` / `_ =>` *)
+| AWild                           (* `token =>` / `_ =>` *)
+| ANever.                         (* a pattern no tree-builder token has (DOCTYPE tokens never reach step) *)
 
 Definition split_eqb (a b : split) : bool :=
   match a, b with NotSplit, NotSplit | Whitespace, Whitespace | NotWhitespace, NotWhitespace => true | _, _ => false end.
@@ -100,340 +105,79 @@ Fixpoint first_match (heads : list arm_head) (t : tok) : nat :=
   | h :: r => if existsb (atom_matches t) h then 0 else S (first_match r t)
   end.
 
-Definition starts (l : list string) : arm_head := map (fun s => AStart (nm s)) l.
-Definition ends (l : list string) : arm_head := map (fun s => AEnd (nm s)) l.
-Definition c_notsplit : arm_head := [AChars (Some NotSplit)].
-Definition c_ws : arm_head := [AChars (Some Whitespace)].
-Definition c_any : arm_head := [AChars None].
+Definition conv_split (s : HV.TreeTables.Types.split) : split :=
+  match s with
+  | HV.TreeTables.Types.SpNotSplit => NotSplit
+  | HV.TreeTables.Types.SpWs => Whitespace
+  | HV.TreeTables.Types.SpNonWs => NotWhitespace
+  end.
+Definition conv_atom (a : HV.TreeTables.Types.atom) : atom :=
+  match a with
+  | HV.TreeTables.Types.AChars s => AChars (option_map conv_split s)
+  | HV.TreeTables.Types.ANull => ANull
+  | HV.TreeTables.Types.AComment => AComment
+  | HV.TreeTables.Types.ADoctype => ANever
+  | HV.TreeTables.Types.AEof => AEof
+  | HV.TreeTables.Types.AStart n => AStart (nm n)
+  | HV.TreeTables.Types.AEnd n => AEnd (nm n)
+  | HV.TreeTables.Types.AAnyStart => AAnyStart
+  | HV.TreeTables.Types.AAnyEnd => AAnyEnd
+  | HV.TreeTables.Types.AWild => AWild
+  end.
+Definition conv_arms (l : list HV.TreeTables.Types.arm) : list arm_head := map (map conv_atom) l.
 
-Definition heads_initial : list arm_head := Eval vm_compute in
-  [ c_notsplit; c_ws; [AComment]; [AWild] ].
-
-Definition heads_before_html : list arm_head := Eval vm_compute in
-  [ [AComment]; c_notsplit; c_ws; starts ["html"]; ends ["head"; "body"; "html"; "br"]; [AAnyEnd]; [AWild] ].
-
-Definition heads_before_head : list arm_head := Eval vm_compute in
-  [ c_notsplit; c_ws; [AComment]; starts ["html"]; starts ["head"]; ends ["head"; "body"; "html"; "br"];
-    [AAnyEnd]; [AWild] ].
-
-Definition heads_in_head : list arm_head := Eval vm_compute in
-  [ c_notsplit; c_ws; [AComment]; starts ["html"];
-    starts ["base"; "basefont"; "bgsound"; "link"; "meta"];
-    starts ["title"];
-    starts ["noframes"; "style"; "noscript"];
-    starts ["script"];
-    ends ["head"];
-    ends ["body"; "html"; "br"];
-    starts ["template"];
-    ends ["template"];
-    starts ["head"] ++ [AAnyEnd];
-    [AWild] ].
-
-Definition heads_in_head_noscript : list arm_head := Eval vm_compute in
-  [ starts ["html"]; ends ["noscript"]; c_notsplit; c_ws; [AComment];
-    starts ["basefont"; "bgsound"; "link"; "meta"; "noframes"; "style"];
-    ends ["br"];
-    starts ["head"; "noscript"] ++ [AAnyEnd];
-    [AWild] ].
-
-Definition heads_after_head : list arm_head := Eval vm_compute in
-  [ c_notsplit; c_ws; [AComment]; starts ["html"]; starts ["body"]; starts ["frameset"];
-    starts ["base"; "basefont"; "bgsound"; "link"; "meta"; "noframes"; "script"; "style"; "template"; "title"];
-    ends ["template"];
-    ends ["body"; "html"; "br"];
-    starts ["head"] ++ [AAnyEnd];
-    [AWild] ].
-
-Definition heads_in_body : list arm_head := Eval vm_compute in
-  [ (* 0 *) [ANull];
-    (* 1 *) c_any;
-    (* 2 *) [AComment];
-    (* 3 *) starts ["html"];
-    (* 4 *) starts ["base"; "basefont"; "bgsound"; "link"; "meta"; "noframes"; "script"; "style"; "template"; "title"]
-            ++ ends ["template"];
-    (* 5 *) starts ["body"];
-    (* 6 *) starts ["frameset"];
-    (* 7 *) [AEof];
-    (* 8 *) ends ["body"];
-    (* 9 *) ends ["html"];
-    (* 10 *) starts ["address"; "article"; "aside"; "blockquote"; "center"; "details"; "dialog"; "dir"; "div"; "dl";
-                     "fieldset"; "figcaption"; "figure"; "footer"; "header"; "hgroup"; "main"; "nav"; "ol"; "p";
-                     "search"; "section"; "summary"; "ul"];
-    (* 11 *) starts ["menu"];
-    (* 12 *) starts ["h1"; "h2"; "h3"; "h4"; "h5"; "h6"];
-    (* 13 *) starts ["pre"; "listing"];
-    (* 14 *) starts ["form"];
-    (* 15 *) starts ["li"; "dd"; "dt"];
-    (* 16 *) starts ["plaintext"];
-    (* 17 *) starts ["button"];
-    (* 18 *) ends ["address"; "article"; "aside"; "blockquote"; "button"; "center"; "details"; "dialog"; "dir"; "div";
-                   "dl"; "fieldset"; "figcaption"; "figure"; "footer"; "header"; "hgroup"; "listing"; "main"; "menu";
-                   "nav"; "ol"; "pre"; "search"; "section"; "select"; "summary"; "ul"];
-    (* 19 *) ends ["form"];
-    (* 20 *) ends ["option"];
-    (* 21 *) ends ["p"];
-    (* 22 *) ends ["li"; "dd"; "dt"];
-    (* 23 *) ends ["h1"; "h2"; "h3"; "h4"; "h5"; "h6"];
-    (* 24 *) starts ["a"];
-    (* 25 *) starts ["b"; "big"; "code"; "em"; "font"; "i"; "s"; "small"; "strike"; "strong"; "tt"; "u"];
-    (* 26 *) starts ["nobr"];
-    (* 27 *) ends ["a"; "b"; "big"; "code"; "em"; "font"; "i"; "nobr"; "s"; "small"; "strike"; "strong"; "tt"; "u"];
-    (* 28 *) starts ["applet"; "marquee"; "object"];
-    (* 29 *) ends ["applet"; "marquee"; "object"];
-    (* 30 *) starts ["table"];
-    (* 31 *) ends ["br"];
-    (* 32 *) starts ["area"; "br"; "embed"; "img"; "keygen"; "wbr"];
-    (* 33 *) starts ["input"];
-    (* 34 *) starts ["param"; "source"; "track"];
-    (* 35 *) starts ["hr"];
-    (* 36 *) starts ["image"];
-    (* 37 *) starts ["textarea"];
-    (* 38 *) starts ["xmp"];
-    (* 39 *) starts ["iframe"];
-    (* 40 *) starts ["noembed"];
-    (* 41 *) starts ["select"];
-    (* 42 *) starts ["option"];
-    (* 43 *) starts ["optgroup"];
-    (* 44 *) starts ["rb"; "rtc"];
-    (* 45 *) starts ["rp"; "rt"];
-    (* 46 *) starts ["math"];
-    (* 47 *) starts ["svg"];
-    (* 48 *) starts ["caption"; "col"; "colgroup"; "frame"; "head"; "tbody"; "td"; "tfoot"; "th"; "thead"; "tr"];
-    (* 49 *) [AAnyStart];
-    (* 50 *) [AAnyEnd] ].
-
-Definition heads_text : list arm_head := Eval vm_compute in
-  [ c_any; [AEof]; [AAnyEnd]; [AWild] ].
-
-Definition heads_in_table : list arm_head := Eval vm_compute in
-  [ (* 0 *) [ANull; AChars None];
-    (* 1 *) [AComment];
-    (* 2 *) starts ["caption"];
-    (* 3 *) starts ["colgroup"];
-    (* 4 *) starts ["col"];
-    (* 5 *) starts ["tbody"; "tfoot"; "thead"];
-    (* 6 *) starts ["td"; "th"; "tr"];
-    (* 7 *) starts ["table"];
-    (* 8 *) ends ["table"];
-    (* 9 *) ends ["body"; "caption"; "col"; "colgroup"; "html"; "tbody"; "td"; "tfoot"; "th"; "thead"; "tr"];
-    (* 10 *) starts ["style"; "script"; "template"] ++ ends ["template"];
-    (* 11 *) starts ["input"];
-    (* 12 *) starts ["form"];
-    (* 13 *) [AEof];
-    (* 14 *) [AWild] ].
-
-Definition heads_in_table_text : list arm_head := Eval vm_compute in
-  [ [ANull]; c_any; [AWild] ].
-
-Definition heads_in_caption : list arm_head := Eval vm_compute in
-  [ starts ["caption"; "col"; "colgroup"; "tbody"; "td"; "tfoot"; "th"; "thead"; "tr"] ++ ends ["table"; "caption"];
-    ends ["body"; "col"; "colgroup"; "html"; "tbody"; "td"; "tfoot"; "th"; "thead"; "tr"];
-    [AWild] ].
-
-Definition heads_in_column_group : list arm_head := Eval vm_compute in
-  [ c_notsplit; c_ws; [AComment]; starts ["html"]; starts ["col"]; ends ["colgroup"]; ends ["col"];
-    starts ["template"] ++ ends ["template"]; [AEof]; [AWild] ].
-
-Definition heads_in_table_body : list arm_head := Eval vm_compute in
-  [ starts ["tr"]; starts ["th"; "td"]; ends ["tbody"; "tfoot"; "thead"];
-    starts ["caption"; "col"; "colgroup"; "tbody"; "tfoot"; "thead"] ++ ends ["table"];
-    ends ["body"; "caption"; "col"; "colgroup"; "html"; "td"; "th"; "tr"];
-    [AWild] ].
-
-Definition heads_in_row : list arm_head := Eval vm_compute in
-  [ starts ["th"; "td"]; ends ["tr"];
-    starts ["caption"; "col"; "colgroup"; "tbody"; "tfoot"; "thead"; "tr"] ++ ends ["table"];
-    ends ["tbody"; "tfoot"; "thead"];
-    ends ["body"; "caption"; "col"; "colgroup"; "html"; "td"; "th"];
-    [AWild] ].
-
-Definition heads_in_cell : list arm_head := Eval vm_compute in
-  [ ends ["td"; "th"];
-    starts ["caption"; "col"; "colgroup"; "tbody"; "td"; "tfoot"; "th"; "thead"; "tr"];
-    ends ["body"; "caption"; "col"; "colgroup"; "html"];
-    ends ["table"; "tbody"; "tfoot"; "thead"; "tr"];
-    [AWild] ].
-
-Definition heads_in_template : list arm_head := Eval vm_compute in
-  [ c_any; [AComment];
-    starts ["base"; "basefont"; "bgsound"; "link"; "meta"; "noframes"; "script"; "style"; "template"; "title"]
-      ++ ends ["template"];
-    starts ["caption"; "colgroup"; "tbody"; "tfoot"; "thead"];
-    starts ["col"]; starts ["tr"]; starts ["td"; "th"]; [AEof]; [AAnyStart]; [AWild] ].
-
-Definition heads_after_body : list arm_head := Eval vm_compute in
-  [ c_notsplit; c_ws; [AComment]; starts ["html"]; ends ["html"]; [AEof]; [AWild] ].
-
-Definition heads_in_frameset : list arm_head := Eval vm_compute in
-  [ c_notsplit; c_ws; [AComment]; starts ["html"]; starts ["frameset"]; ends ["frameset"]; starts ["frame"];
-    starts ["noframes"]; [AEof]; [AWild] ].
-
-Definition heads_after_frameset : list arm_head := Eval vm_compute in
-  [ c_notsplit; c_ws; [AComment]; starts ["html"]; ends ["html"]; starts ["noframes"]; [AEof]; [AWild] ].
-
-Definition heads_after_after_body : list arm_head := Eval vm_compute in
-  [ c_notsplit; c_ws; [AComment]; starts ["html"]; [AEof]; [AWild] ].
-
-Definition heads_after_after_frameset : list arm_head := Eval vm_compute in
-  [ c_notsplit; c_ws; [AComment]; starts ["html"]; [AEof]; starts ["noframes"]; [AWild] ].
-
+Definition heads_initial : list arm_head := Eval vm_compute in conv_arms GenDispatch.arms_Initial.
+Definition heads_before_html : list arm_head := Eval vm_compute in conv_arms GenDispatch.arms_BeforeHtml.
+Definition heads_before_head : list arm_head := Eval vm_compute in conv_arms GenDispatch.arms_BeforeHead.
+Definition heads_in_head : list arm_head := Eval vm_compute in conv_arms GenDispatch.arms_InHead.
+Definition heads_in_head_noscript : list arm_head := Eval vm_compute in conv_arms GenDispatch.arms_InHeadNoscript.
+Definition heads_after_head : list arm_head := Eval vm_compute in conv_arms GenDispatch.arms_AfterHead.
+Definition heads_in_body : list arm_head := Eval vm_compute in conv_arms GenDispatch.arms_InBody.
+Definition heads_text : list arm_head := Eval vm_compute in conv_arms GenDispatch.arms_Text.
+Definition heads_in_table : list arm_head := Eval vm_compute in conv_arms GenDispatch.arms_InTable.
+Definition heads_in_table_text : list arm_head := Eval vm_compute in conv_arms GenDispatch.arms_InTableText.
+Definition heads_in_caption : list arm_head := Eval vm_compute in conv_arms GenDispatch.arms_InCaption.
+Definition heads_in_column_group : list arm_head := Eval vm_compute in conv_arms GenDispatch.arms_InColumnGroup.
+Definition heads_in_table_body : list arm_head := Eval vm_compute in conv_arms GenDispatch.arms_InTableBody.
+Definition heads_in_row : list arm_head := Eval vm_compute in conv_arms GenDispatch.arms_InRow.
+Definition heads_in_cell : list arm_head := Eval vm_compute in conv_arms GenDispatch.arms_InCell.
+Definition heads_in_template : list arm_head := Eval vm_compute in conv_arms GenDispatch.arms_InTemplate.
+Definition heads_after_body : list arm_head := Eval vm_compute in conv_arms GenDispatch.arms_AfterBody.
+Definition heads_in_frameset : list arm_head := Eval vm_compute in conv_arms GenDispatch.arms_InFrameset.
+Definition heads_after_frameset : list arm_head := Eval vm_compute in conv_arms GenDispatch.arms_AfterFrameset.
+Definition heads_after_after_body : list arm_head := Eval vm_compute in conv_arms GenDispatch.arms_AfterAfterBody.
+Definition heads_after_after_frameset : list arm_head := Eval vm_compute in conv_arms GenDispatch.arms_AfterAfterFrameset.
 (* step_foreign *)
-Definition heads_foreign : list arm_head := Eval vm_compute in
-  [ [ANull]; c_any; [AComment];
-    starts ["b"; "big"; "blockquote"; "body"; "br"; "center"; "code"; "dd"; "div"; "dl";
-            "dt"; "em"; "embed"; "h1"; "h2"; "h3"; "h4"; "h5"; "h6"; "head"; "hr"; "i";
-            "img"; "li"; "listing"; "menu"; "meta"; "nobr"; "ol"; "p"; "pre"; "ruby";
-            "s"; "small"; "span"; "strong"; "strike"; "sub"; "sup"; "table"; "tt";
-            "u"; "ul"; "var"] ++ ends ["br"; "p"];
-    starts ["font"];
-    [AAnyStart]; [AAnyEnd]; [AEof] ].
+Definition heads_foreign : list arm_head := Eval vm_compute in conv_arms GenDispatch.arms_Foreign.
 
 (* ---------- adjustment maps (mod.rs) ---------- *)
-Definition conv_pairs (l : list (string * string)) : list (str * str) := map (fun p => (nm (fst p), nm (snd p))) l.
 Fixpoint assoc (k : str) (l : list (str * str)) : option str :=
   match l with
   | [] => None
   | (a, b) :: t => if str_eqb a k then Some b else assoc k t
   end.
-
-Definition svg_tag_names : list (str * str) := Eval vm_compute in conv_pairs
-  [
-   ("altglyph", "altGlyph"); ("altglyphdef", "altGlyphDef"); ("altglyphitem", "altGlyphItem"); ("animatecolor", "animateColor");
-   ("animatemotion", "animateMotion"); ("animatetransform", "animateTransform"); ("clippath", "clipPath"); ("feblend", "feBlend");
-   ("fecolormatrix", "feColorMatrix"); ("fecomponenttransfer", "feComponentTransfer"); ("fecomposite", "feComposite"); ("feconvolvematrix", "feConvolveMatrix");
-   ("fediffuselighting", "feDiffuseLighting"); ("fedisplacementmap", "feDisplacementMap"); ("fedistantlight", "feDistantLight"); ("fedropshadow", "feDropShadow");
-   ("feflood", "feFlood"); ("fefunca", "feFuncA"); ("fefuncb", "feFuncB"); ("fefuncg", "feFuncG");
-   ("fefuncr", "feFuncR"); ("fegaussianblur", "feGaussianBlur"); ("feimage", "feImage"); ("femerge", "feMerge");
-   ("femergenode", "feMergeNode"); ("femorphology", "feMorphology"); ("feoffset", "feOffset"); ("fepointlight", "fePointLight");
-   ("fespecularlighting", "feSpecularLighting"); ("fespotlight", "feSpotLight"); ("fetile", "feTile"); ("feturbulence", "feTurbulence");
-   ("foreignobject", "foreignObject"); ("glyphref", "glyphRef"); ("lineargradient", "linearGradient"); ("radialgradient", "radialGradient");
-   ("textpath", "textPath") ].
-
-Definition svg_attr_names : list (str * str) := Eval vm_compute in conv_pairs
-  [
-   ("attributename", "attributeName"); ("attributetype", "attributeType"); ("basefrequency", "baseFrequency");
-   ("baseprofile", "baseProfile"); ("calcmode", "calcMode"); ("clippathunits", "clipPathUnits");
-   ("diffuseconstant", "diffuseConstant"); ("edgemode", "edgeMode"); ("filterunits", "filterUnits");
-   ("glyphref", "glyphRef"); ("gradienttransform", "gradientTransform"); ("gradientunits", "gradientUnits");
-   ("kernelmatrix", "kernelMatrix"); ("kernelunitlength", "kernelUnitLength"); ("keypoints", "keyPoints");
-   ("keysplines", "keySplines"); ("keytimes", "keyTimes"); ("lengthadjust", "lengthAdjust");
-   ("limitingconeangle", "limitingConeAngle"); ("markerheight", "markerHeight"); ("markerunits", "markerUnits");
-   ("markerwidth", "markerWidth"); ("maskcontentunits", "maskContentUnits"); ("maskunits", "maskUnits");
-   ("numoctaves", "numOctaves"); ("pathlength", "pathLength"); ("patterncontentunits", "patternContentUnits");
-   ("patterntransform", "patternTransform"); ("patternunits", "patternUnits"); ("pointsatx", "pointsAtX");
-   ("pointsaty", "pointsAtY"); ("pointsatz", "pointsAtZ"); ("preservealpha", "preserveAlpha");
-   ("preserveaspectratio", "preserveAspectRatio"); ("primitiveunits", "primitiveUnits"); ("refx", "refX");
-   ("refy", "refY"); ("repeatcount", "repeatCount"); ("repeatdur", "repeatDur");
-   ("requiredextensions", "requiredExtensions"); ("requiredfeatures", "requiredFeatures"); ("specularconstant", "specularConstant");
-   ("specularexponent", "specularExponent"); ("spreadmethod", "spreadMethod"); ("startoffset", "startOffset");
-   ("stddeviation", "stdDeviation"); ("stitchtiles", "stitchTiles"); ("surfacescale", "surfaceScale");
-   ("systemlanguage", "systemLanguage"); ("tablevalues", "tableValues"); ("targetx", "targetX");
-   ("targety", "targetY"); ("textlength", "textLength"); ("viewbox", "viewBox");
-   ("viewtarget", "viewTarget"); ("xchannelselector", "xChannelSelector"); ("ychannelselector", "yChannelSelector");
-   ("zoomandpan", "zoomAndPan") ].
-
-Definition mathml_attr_names : list (str * str) := Eval vm_compute in conv_pairs [("definitionurl", "definitionURL")].
-
-(* adjust_foreign_attributes: local name -> (prefix, namespace, local) *)
-Definition foreign_attr_names : list (str * qualname) := Eval vm_compute in
-  [
-   (nm "xlink:actuate", {| q_prefix := Some (nm "xlink") ; q_ns := ns_xlink ; q_local := nm "actuate" |});
-   (nm "xlink:arcrole", {| q_prefix := Some (nm "xlink") ; q_ns := ns_xlink ; q_local := nm "arcrole" |});
-   (nm "xlink:href", {| q_prefix := Some (nm "xlink") ; q_ns := ns_xlink ; q_local := nm "href" |});
-   (nm "xlink:role", {| q_prefix := Some (nm "xlink") ; q_ns := ns_xlink ; q_local := nm "role" |});
-   (nm "xlink:show", {| q_prefix := Some (nm "xlink") ; q_ns := ns_xlink ; q_local := nm "show" |});
-   (nm "xlink:title", {| q_prefix := Some (nm "xlink") ; q_ns := ns_xlink ; q_local := nm "title" |});
-   (nm "xlink:type", {| q_prefix := Some (nm "xlink") ; q_ns := ns_xlink ; q_local := nm "type" |});
-   (nm "xml:lang", {| q_prefix := Some (nm "xml") ; q_ns := ns_xml ; q_local := nm "lang" |});
-   (nm "xml:space", {| q_prefix := Some (nm "xml") ; q_ns := ns_xml ; q_local := nm "space" |});
-   (nm "xmlns", {| q_prefix := Some [] (* qualname!("" xmlns "xmlns"): the EMPTY prefix, not None *) ; q_ns := ns_xmlns ; q_local := nm "xmlns" |});
-   (nm "xmlns:xlink", {| q_prefix := Some (nm "xmlns") ; q_ns := ns_xmlns ; q_local := nm "xlink" |}) ].
-
 Fixpoint assoc_q (k : str) (l : list (str * qualname)) : option qualname :=
   match l with
   | [] => None
   | (a, b) :: t => if str_eqb a k then Some b else assoc_q k t
   end.
+Definition conv_qmap (l : list (string * HV.TreeTables.Types.qname)) : list (str * qualname) :=
+  map (fun p => (nm (fst p), conv_qn (snd p))) l.
+
+Definition svg_tag_names : list (str * str) := Eval vm_compute in
+  map (fun p => (nm (fst p), nm (snd p))) GenAdjust.svg_tag_adjust.
+Definition svg_attr_names : list (str * qualname) := Eval vm_compute in conv_qmap GenAdjust.svg_attr_adjust.
+Definition mathml_attr_names : list (str * qualname) := Eval vm_compute in conv_qmap GenAdjust.mathml_attr_adjust.
+(* adjust_foreign_attributes: local name -> (prefix, namespace, local); NB `xmlns` gets the EMPTY prefix *)
+Definition foreign_attr_names : list (str * qualname) := Eval vm_compute in conv_qmap GenAdjust.foreign_attr_adjust.
 
 (* ---------- data.rs ---------- *)
-Definition quirky_public_prefixes : list str := Eval vm_compute in map nm
-  [
-   "-//advasoft ltd//dtd html 3.0 aswedit + extensions//";
-   "-//as//dtd html 3.0 aswedit + extensions//";
-   "-//ietf//dtd html 2.0 level 1//";
-   "-//ietf//dtd html 2.0 level 2//";
-   "-//ietf//dtd html 2.0 strict level 1//";
-   "-//ietf//dtd html 2.0 strict level 2//";
-   "-//ietf//dtd html 2.0 strict//";
-   "-//ietf//dtd html 2.0//";
-   "-//ietf//dtd html 2.1e//";
-   "-//ietf//dtd html 3.0//";
-   "-//ietf//dtd html 3.2 final//";
-   "-//ietf//dtd html 3.2//";
-   "-//ietf//dtd html 3//";
-   "-//ietf//dtd html level 0//";
-   "-//ietf//dtd html level 1//";
-   "-//ietf//dtd html level 2//";
-   "-//ietf//dtd html level 3//";
-   "-//ietf//dtd html strict level 0//";
-   "-//ietf//dtd html strict level 1//";
-   "-//ietf//dtd html strict level 2//";
-   "-//ietf//dtd html strict level 3//";
-   "-//ietf//dtd html strict//";
-   "-//ietf//dtd html//";
-   "-//metrius//dtd metrius presentational//";
-   "-//microsoft//dtd internet explorer 2.0 html strict//";
-   "-//microsoft//dtd internet explorer 2.0 html//";
-   "-//microsoft//dtd internet explorer 2.0 tables//";
-   "-//microsoft//dtd internet explorer 3.0 html strict//";
-   "-//microsoft//dtd internet explorer 3.0 html//";
-   "-//microsoft//dtd internet explorer 3.0 tables//";
-   "-//netscape comm. corp.//dtd html//";
-   "-//netscape comm. corp.//dtd strict html//";
-   "-//o'reilly and associates//dtd html 2.0//";
-   "-//o'reilly and associates//dtd html extended 1.0//";
-   "-//o'reilly and associates//dtd html extended relaxed 1.0//";
-   "-//softquad software//dtd hotmetal pro 6.0::19990601::extensions to html 4.0//";
-   "-//softquad//dtd hotmetal pro 4.0::19971010::extensions to html 4.0//";
-   "-//spyglass//dtd html 2.0 extended//";
-   "-//sq//dtd html 2.0 hotmetal + extensions//";
-   "-//sun microsystems corp.//dtd hotjava html//";
-   "-//sun microsystems corp.//dtd hotjava strict html//";
-   "-//w3c//dtd html 3 1995-03-24//";
-   "-//w3c//dtd html 3.2 draft//";
-   "-//w3c//dtd html 3.2 final//";
-   "-//w3c//dtd html 3.2//";
-   "-//w3c//dtd html 3.2s draft//";
-   "-//w3c//dtd html 4.0 frameset//";
-   "-//w3c//dtd html 4.0 transitional//";
-   "-//w3c//dtd html experimental 19960712//";
-   "-//w3c//dtd html experimental 970421//";
-   "-//w3c//dtd w3 html//";
-   "-//w3o//dtd w3 html 3.0//";
-   "-//webtechs//dtd mozilla html 2.0//";
-   "-//webtechs//dtd mozilla html//" ].
-Definition quirky_public_matches : list str := Eval vm_compute in map nm
-  [
-   "-//w3o//dtd w3 html strict 3.0//en//";
-   "-/w3c/dtd html 4.0 transitional/en";
-   "html" ].
-Definition quirky_system_matches : list str := Eval vm_compute in map nm
-  ["http://www.ibm.com/data/dtd/v11/ibmxhtml1-transitional.dtd"].
-Definition limited_quirky_public_prefixes : list str := Eval vm_compute in map nm
-  [
-   "-//w3c//dtd xhtml 1.0 frameset//";
-   "-//w3c//dtd xhtml 1.0 transitional//" ].
-Definition html4_public_prefixes : list str := Eval vm_compute in map nm
-  [
-   "-//w3c//dtd html 4.01 frameset//";
-   "-//w3c//dtd html 4.01 transitional//" ].
+Definition quirky_public_prefixes : list str := Eval vm_compute in map nm GenQuirks.quirky_public_prefixes.
+Definition quirky_public_matches : list str := Eval vm_compute in map nm GenQuirks.quirky_public_matches.
+Definition quirky_system_matches : list str := Eval vm_compute in map nm GenQuirks.quirky_system_matches.
+Definition limited_quirky_public_prefixes : list str := Eval vm_compute in map nm GenQuirks.limited_quirky_public_prefixes.
+Definition html4_public_prefixes : list str := Eval vm_compute in map nm GenQuirks.html4_public_prefixes.
 (* (name, public, system) combinations that are NOT an error *)
-Definition ok_doctypes : list (option str * option str) := Eval vm_compute in
-  [ (None, None);
-    (None, Some (nm "about:legacy-compat"));
-    (Some (nm "-//W3C//DTD HTML 4.0//EN"), None);
-    (Some (nm "-//W3C//DTD HTML 4.0//EN"), Some (nm "http://www.w3.org/TR/REC-html40/strict.dtd"));
-    (Some (nm "-//W3C//DTD HTML 4.01//EN"), None);
-    (Some (nm "-//W3C//DTD HTML 4.01//EN"), Some (nm "http://www.w3.org/TR/html4/strict.dtd"));
-    (Some (nm "-//W3C//DTD XHTML 1.0 Strict//EN"), Some (nm "http://www.w3.org/TR/xhtml1/DTD/xhtml1-strict.dtd"));
-    (Some (nm "-//W3C//DTD XHTML 1.1//EN"), Some (nm "http://www.w3.org/TR/xhtml11/DTD/xhtml11.dtd")) ].
+Definition ok_doctypes : list (option str * option str * option str) := Eval vm_compute in
+  map (fun t => (option_map nm (fst (fst t)), option_map nm (snd (fst t)), option_map nm (snd t)))
+      GenQuirks.doctype_ok_triples.
